@@ -259,7 +259,7 @@ def _project(system, ctrl, side):
                     s = "opening_*"
                 vals.append(names.index(s) if s in names else -99)
     # armed: the delayed call carrying the current token that has not been delivered yet
-    token = getattr(actor, "_PoupoolActor__token", None)
+    token = current_token(actor)
     armed = None
     for e in w.pending_timers():
         t = e[2]
@@ -273,10 +273,38 @@ def _project(system, ctrl, side):
     return leaf, tuple(vals), armed_id
 
 
+_TOKEN_ATTR = {}
+
+
+def token_attr(actor):
+    """name of the attribute holding the delayed-call token of controller/actor.py, found by behaviour (the integer
+    attribute that `do_cancel` changes), so that renaming it is harmless; cached per class"""
+    import controller.actor as ca
+
+    if "name" in _TOKEN_ATTR:
+        return _TOKEN_ATTR["name"]
+    name = None
+    try:
+        base = {k: v for k, v in vars(actor).items() if isinstance(v, int) and not isinstance(v, bool) and k.startswith("_PoupoolActor")}
+        if len(base) == 1:
+            name = next(iter(base))
+        elif "_PoupoolActor__token" in base:
+            name = "_PoupoolActor__token"
+    except Exception:  # noqa: BLE001
+        pass
+    _TOKEN_ATTR["name"] = name
+    return name
+
+
+def current_token(actor):
+    n = token_attr(actor)
+    return getattr(actor, n, None) if n else None
+
+
 def _tproj(w, actor, a, model):
     """timer-view projection of one real controller: (phase, delayed call carrying the current token, token)"""
     leaf = 0 if model == "PWM" else a["leaves"].index(actor.state)
-    token = getattr(actor, "_PoupoolActor__token", None)
+    token = current_token(actor)
     armed = None
     for e in w.pending_timers():
         t = e[2]
@@ -366,7 +394,7 @@ def _worker(args):
             real = actor.sim_name
             model = "PWM" if real.startswith("PWM") else real
             a = side["actors"].get(model)
-            if a is None or hname == "<stop>" or not hasattr(actor, "_PoupoolActor__token"):
+            if a is None or hname == "<stop>" or current_token(actor) is None:
                 return
             try:
                 if when == "pre":
